@@ -257,4 +257,13 @@ def make_scenarios(seed, count, prefix, cap, kinds=('epoch', 'id'), long_share=0
             continue
         out.append(g.scenario(f'{prefix}{i}', kind=kind, long_run=(kind == 'epoch' and rng.random() < long_share),
                               sequential=seq))
+    # a share of the epoch scenarios runs with a second, unrelated EpochManager in the process: every thread takes a
+    # guard of it as soon as it knows its ID and keeps it while it works on the first manager (state shared between
+    # manager instances - thread_local, static - would show as a difference; the harness keeps those calls out of
+    # the trace, so the expected trace is exactly the one without the second manager)
+    out = [with_decoy(s) if ' comp=thread ' in s and rng.random() < 0.15 else s for s in out]
     return out
+
+
+def with_decoy(text):
+    return '\n'.join(l + ' decoy=1' if l.startswith('SCEN ') else l for l in text.split('\n'))
